@@ -21,7 +21,7 @@ func init() {
 	ev.Register(&ev.Check{
 		ID:          "C15",
 		Level:       "exploration",
-		Rule:        "every Check-accepted case of the C01 (all rule-free schemas <= 3/4 nodes, both configs), C03 (type references, or, allOf, additionalProperties, key shortcuts), C04 (34 rule slots x 13 contexts) and C09 (all fully inhabited type graphs over 1-2 types + ring/diamond families with optional/array/terminating edges, recursive child first/middle/last/only) generators plus the deep C09 family (two types, every pair of slots per object body, 7 roots) and hostile keys/strings: Example() must return nil error and bytes accepted by the reference PDA and encoding/json; Validate(Example()) on the same schema must succeed; for plain-JSON examples the bytes must equal the generator's compact rendering. Non-trivial = distinct accepted schema (rendered text + environment).",
+		Rule:        "every Check-accepted case of the C01 (all rule-free schemas <= 3/4 nodes, both configs), C03 (type references, or, allOf, additionalProperties, key shortcuts), C04 (34 rule slots x 13 contexts) and C09 (all fully inhabited type graphs over 1-2 types + ring/diamond families with optional/array/terminating edges, recursive child first/middle/last/only) generators plus the deep C09 family (two types, every pair of slots per object body, 7 roots), the heirs family (@h1 and @h2 extend @base - or @h2 extends @h1 - and a node of @base, nested object / body / two levels deep / array, holds every non-empty subset of optional references to @h1, @h2, @base; 6 roots) and hostile keys/strings: Example() must return nil error and bytes accepted by the reference PDA and encoding/json; Validate(Example()) on the same schema must succeed; for plain-JSON examples the bytes must equal the generator's compact rendering. Non-trivial = distinct accepted schema (rendered text + environment).",
 		Run:         run,
 		Replay:      replay,
 		QuickBudget: 80 * time.Second,
@@ -147,6 +147,56 @@ func run(c *ev.Ctx) {
 	// list and by name, or sets, shortcuts with rules, allOf, additionalProperties, item counts), alone,
 	// as a property next to another one, optional, inside an array
 	c16.AstFamily(func(cs sc.Case) { each("ast", cs) })
+	// heirs that share an inherited node which refers back to them: @h1 and @h2 extend @base (or @h2
+	// extends @h1), and a node of @base - a nested object, an array, the body itself - holds optional
+	// references to the heirs and to the base; the inherited node is ONE object living in every heir
+	opt := gen.R("optional", "true")
+	refs := []gen.Prop{gen.P("p", gen.Ref("@h1").With(opt)), gen.P("q", gen.Ref("@h2").With(opt)), gen.P("r", gen.Ref("@base").With(opt))}
+	for mask := 1; mask < 8; mask++ {
+		var sel []gen.Prop
+		for i, r := range refs {
+			if mask&(1<<uint(i)) != 0 {
+				sel = append(sel, gen.Prop{Key: r.Key, Val: r.Val.Clone()})
+			}
+		}
+		clone := func() []gen.Prop {
+			var o []gen.Prop
+			for _, r := range sel {
+				o = append(o, gen.Prop{Key: r.Key, Val: r.Val.Clone()})
+			}
+			return o
+		}
+		var arrItems []*gen.Node
+		for _, r := range sel {
+			arrItems = append(arrItems, gen.Ref(r.Val.Lit))
+		}
+		bases := []*gen.Node{
+			gen.Obj(gen.P("sub", gen.Obj(clone()...))),
+			gen.Obj(append([]gen.Prop{gen.P("id", gen.Int("1"))}, clone()...)...),
+			gen.Obj(gen.P("sub", gen.Obj(gen.P("deep", gen.Obj(clone()...))))),
+			gen.Obj(gen.P("list", gen.Arr(arrItems...))),
+		}
+		for _, base := range bases {
+			for chain := 0; chain < 2; chain++ {
+				h2parent := `"@base"`
+				if chain == 1 {
+					h2parent = `"@h1"`
+				}
+				types := []sc.TypeDecl{
+					{Name: "@base", Body: base.Clone()},
+					{Name: "@h1", Body: gen.Obj(gen.P("a", gen.Int("1"))).With(gen.R("allOf", `"@base"`))},
+					{Name: "@h2", Body: gen.Obj(gen.P("b", gen.Int("2"))).With(gen.R("allOf", h2parent))},
+				}
+				for _, root := range []*gen.Node{gen.Ref("@h1"), gen.Ref("@h2"), gen.Ref("@base"), gen.Obj(gen.P("k", gen.Ref("@h1")), gen.P("l", gen.Ref("@h2"))), gen.Arr(gen.Ref("@h2"), gen.Ref("@h1")), gen.Obj(gen.P("own", gen.Int("1"))).With(gen.RL("allOf", gen.RuleItem{Lit: `"@h1"`}))} {
+					var ts []sc.TypeDecl
+					for _, t := range types {
+						ts = append(ts, sc.TypeDecl{Name: t.Name, Body: t.Body.Clone()})
+					}
+					each("heirs", sc.Case{Root: root.Clone(), Types: ts})
+				}
+			}
+		}
+	}
 	// big examples: objects of n properties and arrays of n items (examples from some hundred bytes to
 	// > 16 KiB: the pooled buffers grow, are dropped, are reused), alone, followed by a small sibling, and
 	// twice in a row; every case is also the "next example" of the case before it in this process
